@@ -58,6 +58,7 @@ class Ino:
 class Hnd:
     def __init__(self, ino, rd, wr, app):
         self.ino, self.rd, self.wr, self.app, self.pos = ino, rd, wr, app, 0
+        self.snap, self.snap_pos = None, 0   # paged Readdir: listing at the first paged call, entries handed out
 
 
 FAIL, OK, EITHER = "fail", "ok", "either"
@@ -226,6 +227,57 @@ def judge(fs, op, res):
             node.data = bytearray()
         fs.h[a[1]] = Hnd(node, rd, wr, "a" in mods)
         return None
+
+    if kind == "fssize":
+        total = [0]
+
+        def add(ino):
+            for k in ino.kids.values():
+                if k.is_dir:
+                    add(k)
+                else:
+                    total[0] += len(k.data)
+        add(fs.root)
+        return None if res == str(total[0]) else "Size() of the filesystem is %s, the plain model's files hold %d bytes" % (res, total[0])
+    if kind == "memsize":
+        # not a quantity of the plain model; it can only be between 0 and the total data size
+        if res == "-":
+            return None
+        total = [0]
+
+        def add2(ino):
+            for k in ino.kids.values():
+                if k.is_dir:
+                    add2(k)
+                else:
+                    total[0] += len(k.data)
+        add2(fs.root)
+        return None if res.isdigit() and int(res) <= total[0] else "MemorySize() %s exceeds the %d bytes of file data" % (res, total[0])
+    if kind == "hreaddirn":
+        h = fs.h.get(a[1])
+        if h is None:
+            return None if res == "nohandle" else "operation on a handle that was never opened succeeded"
+        if res == "nohandle":
+            return "the handle's open succeeded in the plain model but the implementation has no such handle"
+        count = int(a[2])
+        if not h.ino.is_dir:
+            return None if res != "-" and "+" not in res and ":" not in res and not res[0].isdigit() else "readdir on a file succeeded"
+        if count == 0:
+            want = "+".join(listing_of(h.ino)) or "-"
+            return None if res == want else "listing %s differs from the plain model's %s" % (res, want)
+        # paged: the pages of one handle, from the first paged call to EOF, are the listing at the
+        # time of the first call, each entry exactly once, `count` at a time
+        if h.snap is None:
+            h.snap, h.snap_pos = listing_of(h.ino), 0
+        left = len(h.snap) - h.snap_pos
+        if left == 0:
+            return None if res == "0,eof" else "paged readdir after the last entry returned %s, not EOF" % res
+        n = min(count, left)
+        h.snap_pos += n
+        want = "%d,ok" % n
+        if h.snap_pos == len(h.snap):
+            want += "=" + "+".join(h.snap)
+        return None if res == want else "paged readdir returned %s, the plain model says %s" % (res, want)
 
     if kind in ("write", "read", "readn", "seek", "trunc", "close", "hstat", "hreaddir", "hsync"):
         h = fs.h.get(a[1])
@@ -536,15 +588,15 @@ def _path(rng, fs, want):
     return p or "@"
 
 
-def _data(rng, maxb):
-    lim = min(maxb, 64)
+def _data(rng, maxb, lim=None):
+    lim = lim or min(maxb, 64)
     n = rng.choice([0, 1, 1, 2, lim - 1, lim, lim + 1, 2 * lim, 2 * lim + 1, 3 * lim, rng.randint(0, 3 * lim)])
     n = max(0, n)
     return bytes(rng.getrandbits(8) for _ in range(n))
 
 
-def _size(rng, maxb, cur):
-    lim = min(maxb, 64)
+def _size(rng, maxb, cur, lim=None):
+    lim = lim or min(maxb, 64)
     return max(0, rng.choice([0, 1, lim, lim + 1, 2 * lim, 3 * lim, cur, cur + 1, cur - 1, cur + lim, cur - lim,
                               rng.randint(0, 3 * lim), rng.randint(0, cur + 2)]))
 
@@ -569,7 +621,9 @@ def _flags(rng):
     return f
 
 
-def _gen_case(rng, tier, maxb=None, nops=None, selfrename=False, async_=False):
+def _gen_case(rng, tier, maxb=None, nops=None, selfrename=False, async_=False, biglim=None):
+    """biglim: unit for data / truncate / seek sizes instead of min(maxb, 64) — the BIG stream uses 1024 (the
+    initial capacity of a memSegment buffer) at the production block size."""
     maxb = maxb or rng.choice(BLOCKS)
     man = _gen_manifest(rng) if rng.random() < 0.4 else "-"
     fs = PlainFS()
@@ -621,6 +675,10 @@ def _gen_case(rng, tier, maxb=None, nops=None, selfrename=False, async_=False):
             judge(fs, op, "ok")
         elif k in ("mkdir", "rename", "remove", "removeall"):
             judge(fs, op, "ok")
+        elif k == "hreaddirn":
+            hd = fs.h.get(a[1])
+            if hd is not None and hd.ino.is_dir and int(a[2]) > 0 and hd.snap is None:
+                hd.snap, hd.snap_pos = listing_of(hd.ino), 0
 
     held = [False]
     while len(ops) < nops:
@@ -648,7 +706,7 @@ def _gen_case(rng, tier, maxb=None, nops=None, selfrename=False, async_=False):
             if held[0] and hs and (q < 0.36 or (last == "flush" and q < 0.75)):
                 h = rng.choice(hs)
                 cur = len(fs.h[h].ino.data)
-                emit("trunc,%s,%d" % (h, rng.randint(0, cur) if rng.random() < 0.8 else _size(rng, maxb, cur)))
+                emit("trunc,%s,%d" % (h, rng.randint(0, cur) if rng.random() < 0.8 else _size(rng, maxb, cur, biglim)))
                 sim(ops[-1])
                 continue
         if r < 0.16 or (not hs and r < 0.5):
@@ -673,11 +731,11 @@ def _gen_case(rng, tier, maxb=None, nops=None, selfrename=False, async_=False):
             emit(op)
         elif r < 0.46 and hs:
             h = rng.choice(hs)
-            emit("write,%s,%s" % (h, _data(rng, maxb).hex()))
+            emit("write,%s,%s" % (h, _data(rng, maxb, biglim).hex()))
             sim(ops[-1])
         elif r < 0.58 and hs:
             h = rng.choice(hs)
-            lim = min(maxb, 64)
+            lim = biglim or min(maxb, 64)
             n = rng.choice([0, 1, lim, lim + 1, 2 * lim, 3 * lim + 2, rng.randint(0, 4 * lim)])
             # (a single Read call returns one segment's worth: in ASYNC cases the segmentation depends on
             # when the flushes land, so only read-until-n is used there)
@@ -696,7 +754,7 @@ def _gen_case(rng, tier, maxb=None, nops=None, selfrename=False, async_=False):
             h = rng.choice(hs)
             hd = fs.h[h]
             size = len(hd.ino.data)
-            lim = min(maxb, 64)
+            lim = biglim or min(maxb, 64)
             wh = rng.choice([0, 0, 0, 1, 2])
             if wh == 0:
                 off = rng.choice([0, size, size + 1, size + lim, rng.randint(0, size + 1), rng.randint(0, size + 2 * lim), -1])
@@ -708,30 +766,46 @@ def _gen_case(rng, tier, maxb=None, nops=None, selfrename=False, async_=False):
             sim(ops[-1])
         elif r < 0.76 and hs:
             h = rng.choice(hs)
-            emit("trunc,%s,%d" % (h, _size(rng, maxb, len(fs.h[h].ino.data))))
+            emit("trunc,%s,%d" % (h, _size(rng, maxb, len(fs.h[h].ino.data), biglim)))
             sim(ops[-1])
         elif r < 0.79 and fs.h:
             h = rng.choice(list(fs.h))
             emit(rng.choice(["hstat,%s", "hstat,%s", "hreaddir,%s", "close,%s", "hsync,%s"]) % h)
             sim(ops[-1])
-        elif r < 0.83:
+        elif r < 0.805:
+            # paged Readdir through a directory handle (opened now if there is none); the other ops of the
+            # history change the directory between the pages
+            dh = [k for k, hd in fs.h.items() if hd.ino.is_dir]
+            if (not dh or rng.random() < 0.25) and len(fs.h) < 10:
+                h = next_h[0]
+                next_h[0] += 1
+                emit("open,%d,%s,R" % (h, _path(rng, fs, "dir") if rng.random() < 0.7 else "@"))
+                sim(ops[-1])
+                dh = [k for k, hd in fs.h.items() if hd.ino.is_dir]
+            tgt = rng.choice(dh) if dh and rng.random() < 0.9 else (rng.choice(list(fs.h)) if fs.h else None)
+            if tgt is not None:
+                emit("hreaddirn,%s,%d" % (tgt, rng.choice([0, 1, 1, 1, 2, 2, 3, 5])))
+                sim(ops[-1])
+        elif r < 0.815:
+            emit("fssize" if async_ or rng.random() < 0.6 else "memsize")
+        elif r < 0.85:
             emit("mkdir,%s" % _path(rng, fs, "new" if rng.random() < 0.7 else "any"))
             sim(ops[-1])
-        elif r < 0.88:
+        elif r < 0.895:
             src = _path(rng, fs, "any")
             dst = _path(rng, fs, rng.choice(["new", "any", "dir", "file"]))
             if selfrename and rng.random() < 0.5:
                 dst = rng.choice([src, "./" + src, src + "/../" + src.split("/")[-1]]) if src != "@" else dst
             emit("rename,%s,%s" % (src, dst))
             sim(ops[-1])
-        elif r < 0.91:
+        elif r < 0.92:
             emit("%s,%s" % (rng.choice(["remove", "remove", "removeall"]), _path(rng, fs, "any")))
             sim(ops[-1])
-        elif r < 0.94:
+        elif r < 0.945:
             emit("stat,%s" % _path(rng, fs, "any"))
-        elif r < 0.96:
+        elif r < 0.962:
             emit("readdir,%s" % _path(rng, fs, "dir"))
-        elif r < 0.985:
+        elif r < 0.987:
             p = _path(rng, fs, "dir") if rng.random() < 0.5 else "@"
             emit("flush,%s,%d" % (p, rng.randint(0, 1)))
         else:
@@ -753,6 +827,7 @@ def _gen_case(rng, tier, maxb=None, nops=None, selfrename=False, async_=False):
     for p in files[:8]:
         tail += ["open,%d,%s,R" % (h, p), "readn,%d,100000" % h, "hstat,%d" % h]
         h += 1
+    tail.append("fssize")
     return "fs %d %s %s" % (maxb, man, ";".join(ops + tail))
 
 
@@ -884,6 +959,105 @@ def _gen_async_focus_case(rng, tier):
     return "fs %d - %s" % (maxb, ";".join(ops))
 
 
+def _gen_paging_case(rng, tier):
+    """PAGING case: one or two directories with 0-7 entries (files with data, subdirectories), one to three
+    directory handles used with Readdir(count > 0) for random counts, while entries are created, removed,
+    renamed, overwritten and grown between the pages; handles are read past EOF, closed and their slots
+    re-opened; Readdir(0) / hstat / stat / fssize in between."""
+    maxb = rng.choice(BLOCKS)
+    fs = PlainFS()
+    ops = []
+
+    def do(op, res="ok"):
+        ops.append(op)
+        judge(fs, op, res)
+
+    dirs = ["@"]
+    if rng.random() < 0.7:
+        do("mkdir,d")
+        dirs.append("d")
+    nh = [0]
+    fileh = {}
+
+    def mk_entry(d):
+        name = _name(rng)
+        p = name if d == "@" else d + "/" + name
+        node = fs.resolve(unpath(p))
+        if node is not None:
+            return
+        if rng.random() < 0.3:
+            do("mkdir,%s" % p)
+        else:
+            h = nh[0]
+            nh[0] += 1
+            do("create,%d,%s" % (h, p))
+            data = _data(rng, maxb)
+            if data:
+                do("write,%d,%s" % (h, data.hex()), "%d,ok" % len(data))
+            fileh[p] = h
+    for d in dirs:
+        for _ in range(rng.choice([0, 1, 2, 3, 5, 7])):
+            mk_entry(d)
+    dh = []
+    for _ in range(rng.choice([1, 1, 2, 3])):
+        h = 100 + len(dh)
+        d = rng.choice(dirs)
+        do("open,%d,%s,R" % (h, rng.choice([d, d + "/.", d + "/"]) if d != "@" else rng.choice(["@", ".", "/"])))
+        dh.append((h, d))
+    for _ in range(rng.randint(6, 40 if tier == "quick" else 90)):
+        r = rng.random()
+        h, d = rng.choice(dh)
+        if r < 0.45:
+            op = "hreaddirn,%d,%d" % (h, rng.choice([1, 1, 1, 2, 2, 3, 4, 8, 0]))
+            ops.append(op)
+            hd = fs.h.get(str(h))
+            if hd is not None and hd.snap is None and not op.endswith(",0"):
+                hd.snap, hd.snap_pos = listing_of(hd.ino), 0
+        elif r < 0.60:
+            mk_entry(d)
+        elif r < 0.72:
+            node = fs.resolve(unpath(d))
+            if node is not None and node.kids:
+                name = rng.choice(sorted(node.kids))
+                p = name if d == "@" else d + "/" + name
+                k = node.kids[name]
+                if k.is_dir and k.kids:
+                    do("removeall,%s" % p)
+                else:
+                    do("remove,%s" % p)
+        elif r < 0.82:
+            node = fs.resolve(unpath(d))
+            if node is not None and node.kids:
+                name = rng.choice(sorted(node.kids))
+                p = name if d == "@" else d + "/" + name
+                d2 = rng.choice(dirs)
+                n2 = _name(rng)
+                q = n2 if d2 == "@" else d2 + "/" + n2
+                ops.append("rename,%s,%s" % (p, q))
+                # (may fail: onto a directory, into itself — the oracle decides; steer only when it is plain)
+                tgt = fs.resolve(unpath(q))
+                src = fs.resolve(unpath(p))
+                if (tgt is None or not tgt.is_dir) and not (src.is_dir and q.startswith(p + "/")) and src is not tgt:
+                    judge(fs, ops[-1], "ok")
+        elif r < 0.90:
+            live = [(p, fh) for p, fh in fileh.items() if str(fh) in fs.h]
+            if live:
+                p, fh = rng.choice(live)
+                data = _data(rng, maxb)
+                do("write,%d,%s" % (fh, data.hex()), "%d,ok" % len(data))
+        elif r < 0.94:
+            # close the directory handle and open the slot again: a fresh snapshot
+            do("close,%d" % h)
+            do("open,%d,%s,R" % (h, d))
+        else:
+            ops.append(rng.choice(["hreaddir,%d" % h, "hstat,%d" % h, "stat,%s" % d, "fssize", "readdir,%s" % d, "memsize",
+                                   "flush,@,1", "sync"]))
+    for h, d in dh:
+        ops += ["hreaddirn,%d,%d" % (h, rng.choice([1, 2, 100]))] * rng.choice([1, 2, 3])
+    ops.append("fssize")
+    return "fs %d - %s" % (maxb, ";".join(ops))
+
+
 def generate(rng, tier):
     n = 420 if tier == "quick" else 10000
     cases = []
@@ -904,6 +1078,21 @@ def generate(rng, tier):
     # a few histories with many renames of a path onto itself (finding F13, fixed by 100856b)
     for _ in range(3 if tier == "quick" else 40):
         cases.append(_gen_case(rng, tier, nops=rng.randint(10, 40), selfrename=True))
+    # third extension pass -------------------------------------------------------------------
+    # PAGING: Readdir(count > 0) while the directory changes between the pages
+    for _ in range(40 if tier == "quick" else 1000):
+        cases.append(_gen_paging_case(rng, tier))
+    # BIG: production block size with writes / truncates / seeks of up to a few KiB (a fresh memSegment
+    # buffer has 1024 bytes of capacity and is reallocated in steps of x4: both branches of
+    # memSegment.Truncate, shrink-then-grow inside and beyond the capacity)
+    for _ in range(16 if tier == "quick" else 300):
+        cases.append(_gen_case(rng, tier, maxb=PROD, nops=rng.randint(10, 50), biglim=rng.choice([400, 1024, 1024, 1365])))
+    # EVERY block size limit from 1 to 64 bytes (the other streams use the eight values of BLOCKS)
+    for _ in range(24 if tier == "quick" else 640):
+        cases.append(_gen_case(rng, tier, maxb=rng.randint(1, 64), nops=rng.randint(10, 60)))
+    # LONG: histories of several hundred operations also in the quick tier
+    for _ in range(4 if tier == "quick" else 40):
+        cases.append(_gen_case(rng, tier, maxb=rng.choice(BLOCKS[:6]), nops=rng.randint(300, 500)))
     return cases
 
 
